@@ -43,6 +43,10 @@ var vC03Programs = []string{
 	`(defn mk [y] (let [x (* y 2)] [(fn [] x) (fn [v] (set x v))])) (def p (mk 9001)) ((aget p 1) 9002) ((aget p 0))`,
 	// 16 parameter shadows global inside nested fn
 	`(def y 9001) (defn f [y] ((fn [] ((fn [] y))))) (f 9002)`,
+	// 18 caller's locals after a callee that tail-recurses from a guarded cond arm inside a let
+	`(defn sumto [i acc] (let [m 1] (cond (< i 2) (sumto (+ i m) (+ acc i)) acc))) (defn user [i] (let [r (sumto 0 0) g (fn [] i)] (+ (* 1000 i) (+ (* 10 (g)) r)))) (user 9001)`,
+	// 19 the same with the recursion in newScope and the closure created before the call
+	`(defn down [n] (newScope (def q n) (cond (> q 0) (down (- q 1)) q))) (defn user [x] (let [g (fn [] x)] (down 2) (+ (g) x))) (user 9001)`,
 	// 17 function defined in let refers to let variable after let exits
 	`(def g (let [x 9001] (fn [y] (+ x y)))) (let [x 9002] (g 9003))`,
 }
